@@ -135,6 +135,8 @@ def verify_contract(ex: Exec, c: api.Contract):
         vals = dict(params)
         vals["old"] = old
         vals["result"] = ret
+        from .ty import lift as _lift
+        vals.setdefault("caught", _lift(tuple(getattr(ex.run, "caught", []))))  # classes swallowed by handlers on this path
         def lemma_term(mname):
             # instances of separately proved lemmas (each lemma is its own proof unit), evaluated as ONE term
             ex.lemma_using = 1
